@@ -134,9 +134,7 @@ def g_verdicts(name, roots, batch=40):
             if x not in seen and b"\\" in x:      # the classifier can only fire on a text with a backslash
                 seen.add(x)
                 invs.append(x)
-        # the second classifier reads the root inventory; hand it over only when it can fire
-        root = allinv[0] if allinv and b'""' in allinv[0] else None
-        terms.append("g_known %s [%s]" % ("None" if root is None else "(Some %s)" % coq_bytes(root), "; ".join(coq_bytes(x) for x in invs)))
+        terms.append("g_known_escape [%s]" % "; ".join(coq_bytes(x) for x in invs))
     res = common.coq_eval(name, IMPORTS, terms, batch=batch)
     out = []
     for i in range(len(roots)):
@@ -144,11 +142,9 @@ def g_verdicts(name, roots, batch=40):
         m = re.match(r"^\((.*),\s*(\[[^\]]*\]|nil)\)$", pair)
         if not m:
             raise common.BuildError("unexpected Coq value for g_object2: %r" % pair[:200])
-        mk = re.match(r"^\((true|false),\s*(true|false)\)$", known)
-        if not mk:
-            raise common.BuildError("unexpected Coq value for g_known: %r" % known[:200])
-        out.append({"fix": parse_codes(m.group(1)), "nofix": parse_codes(m.group(2)),
-                    "known": mk.group(1) == "true", "known_empty_lpath": mk.group(2) == "true"})
+        if known not in ("true", "false"):
+            raise common.BuildError("unexpected Coq value for g_known_escape: %r" % known[:200])
+        out.append({"fix": parse_codes(m.group(1)), "nofix": parse_codes(m.group(2)), "known": known == "true"})
     return out
 
 
